@@ -64,6 +64,14 @@ func exec(op string) vlib.Res {
 		if need(4) {
 			return execCachef(f)
 		}
+	case "cli run":
+		if need(7) {
+			return execCli(f)
+		}
+	case "scache run":
+		if need(5) {
+			return execSearchCache(f)
+		}
 	case "doh run":
 		if need(6) {
 			return execDoH(f)
@@ -404,6 +412,67 @@ func genXchg(r *vlib.R, emit func(string)) {
 		cands = append(cands, mk(r.Intn(10)))
 	}
 	emit(fmt.Sprintf("xchg run %s %d %s %s", proto, qid, q, strings.ReplaceAll(listOrDash(cands), ",", ";")))
+}
+
+// genCli: dnsclient.Client{Proto: "udp"} against real loopback sockets: the UDP leg (0-3 datagrams, the matching one
+// usually last and truncated half of the time), and what waits on the TCP leg (right / wrong id, right / wrong question).
+func genCli(r *vlib.R, emit func(string)) {
+	qid := r.Intn(65536)
+	zone := vlib.Pick(r, baseZones[1:])
+	qn := under(vlib.Pick(r, someLabels), zone)
+	qt := vlib.Pick(r, []int{1, 28, 16})
+	q := fmt.Sprintf("%s/%d/1", qn, qt)
+	one := func(kind int, tc bool) string {
+		id, name, t := qid, qn, qt
+		switch kind {
+		case 1:
+			id = wrongID(r, qid)
+		case 2:
+			name = "www.victim.test."
+		case 3:
+			t = 5
+		case 4:
+			name = flipCase(r, qn)
+		}
+		fl := ""
+		if tc {
+			fl = "t"
+		}
+		return fmt.Sprintf("%d%s:%s/%d/1", id, fl, name, t)
+	}
+	var u []string
+	for i := r.Intn(3); i > 0; i-- {
+		u = append(u, one(1, r.Bool()))
+	}
+	tc := r.Chance(3, 5)
+	if r.Chance(9, 10) {
+		u = append(u, one(vlib.Pick(r, []int{0, 0, 0, 0, 4, 2, 3}), tc))
+	}
+	var t []string
+	if r.Chance(9, 10) {
+		t = append(t, one(vlib.Pick(r, []int{0, 0, 4, 2, 2, 3, 1}), r.Chance(1, 4)))
+	}
+	emit(fmt.Sprintf("cli run %d %s %s %s %s", qid, q, strings.ReplaceAll(listOrDash(u), ",", ";"), strings.ReplaceAll(listOrDash(t), ",", ";"), vlib.B(r.Chance(1, 10))))
+}
+
+// genSearchCache: a set of cached zones and a question: names below / beside / above them, string-suffix and
+// escaped-dot look-alikes (`foo\.evil.test.`), DS questions, case differences.
+func genSearchCache(r *vlib.R, emit func(string)) {
+	var zones []string
+	for _, z := range baseZones[1:] {
+		if r.Chance(1, 2) {
+			zones = append(zones, z)
+		}
+	}
+	z := vlib.Pick(r, baseZones)
+	qn := related(r, z)
+	if r.Chance(1, 3) {
+		qn = under(vlib.Pick(r, someLabels), related(r, z))
+	}
+	if r.Chance(1, 4) && z != "." {
+		qn = vlib.Pick(r, []string{"foo\\.", "a.b\\.", "x\\.y\\."}) + z
+	}
+	emit(fmt.Sprintf("scache run %s %s %d", listOrDash(zones), qn, vlib.Pick(r, []int{1, 1, 1, 43, 2, 28})))
 }
 
 // genDoH: one DoH exchange of dnsclient.Client (the forwarder's transport): the query ID is 0 in a third
@@ -895,6 +964,10 @@ func gen(r *vlib.R, n int, tier string, emit func(string)) {
 		case k < 8:
 			if r.Chance(1, 6) {
 				genDoH(r, emit)
+			} else if r.Chance(1, 14) {
+				genCli(r, emit)
+			} else if r.Chance(1, 5) {
+				genSearchCache(r, emit)
 			} else {
 				genXchg(r, emit)
 			}
